@@ -167,20 +167,16 @@ def apply_builtin(repo, m):
 def run_checks(repo, props, tier):
     res = {}
     for pid in props:
-        env = dict(os.environ, VERIF_REPO=repo)
+        out = os.path.join(SCRATCH, "out-%d" % os.getpid())
+        env = dict(os.environ, VERIF_REPO=repo, VERIF_EVIDENCE_DIR=os.path.join(out, "evidence"), VERIF_REPLAY_OUT=os.path.join(out, "replays"))
         t0 = time.time()
         r = subprocess.run([os.path.join(VERIF, "check"), "run", pid, "--tier", tier], env=env, cwd=VERIF,
                            stdout=subprocess.PIPE, stderr=subprocess.STDOUT, text=True, errors="replace")
         line = [l for l in r.stdout.splitlines() if l.startswith(("VIOLATION", "OK ", "INCONCLUSIVE"))]
         res[pid] = {"exit": r.returncode, "wall_s": round(time.time() - t0), "line": (line[-1] if line else "")[:200]}
-        # a violation found on a mutant leaves a replay file behind: remove it again
-        for l in line:
-            if l.startswith("VIOLATION") and "replay=" in l:
-                path = l.split("replay=")[1].strip()
-                if "/replays/regress/" not in path and os.path.exists(path):
-                    os.remove(path)
-    # evidence files were rewritten by runs against the mutant: restore the committed ones
-    sh("git -C %s checkout -- evidence" % VERIF)
+    # evidence and replay files of runs against a mutant go to the scratch directory
+    if "--keep" not in sys.argv:
+        shutil.rmtree(os.path.join(SCRATCH, "out-%d" % os.getpid()), ignore_errors=True)
     return res
 
 
